@@ -55,7 +55,7 @@ def main():
             rc0, o0 = sh("%s %s" % (PY, os.path.join(d, "demo.py")), cwd=wt, env=env, timeout=900)
             sh("git -C %s apply %s" % (wt, patch))
             rc1, o1 = sh("%s %s" % (PY, os.path.join(d, "demo.py")), cwd=wt, env=env, timeout=900)
-            rct, ot = sh("%s -m pytest -q -p no:cacheprovider -x -q tests 2>&1 | tail -3" % PY, cwd=wt, env=env, timeout=1800)
+            rct, ot = sh("%s -m pytest -q -p no:cacheprovider tests 2>&1 | tail -1" % PY, cwd=wt, env=env, timeout=1800)
             sh("git -C %s checkout -- . && git -C %s clean -fdq" % (wt, wt))
             m = re.search(r"(\d+) passed", ot)
             r.update({"demo_clean_rc": rc0, "demo_patched_rc": rc1, "tests_with_patch": ot.strip().splitlines()[-1] if ot.strip() else "",
@@ -63,7 +63,8 @@ def main():
             # the property's own check against the patched /repo
             rc, o = sh("git -C %s apply %s" % (REPO, patch))
             try:
-                rcc, oc = sh("./check %s --tier quick" % prop, cwd=VERIF, timeout=3600)
+                rcc, oc = sh("./check %s --tier quick" % prop, cwd=VERIF, timeout=3600,
+                             env=dict(os.environ, BT_VERIF_EVIDENCE_DIR=os.path.join(VERIF, "work", "evidence_patched")))
             finally:
                 sh("git -C %s checkout -- ." % REPO)
             lines = oc.splitlines()
